@@ -1,6 +1,7 @@
 package main
 
 import (
+	"bytes"
 	"fmt"
 	"html"
 	"strings"
@@ -246,6 +247,7 @@ func runC07(cases string, res *Result) {
 			}
 		}
 	})
+	c07LongValues(res, eng)
 	res.Exhaustive = []string{"exhaustive1", "exhaustive2"}
 }
 
@@ -348,3 +350,59 @@ func itoa(i int) string {
 	}
 	return string(b)
 }
+
+// c07LongValues: values longer than any buffer the engine writes through (64 KiB and more), made of multi-byte
+// characters, invalid bytes and the five special characters, shifted so that a character stands across every
+// multiple of 4096 and 65536, through Render and through RenderTo into a writer that only has Write.
+func c07LongValues(res *Result, eng *twig.Engine) {
+	units := []string{"é<", "€&", "\U0001F600\"", "a'\xff", "ééé>"}
+	for _, size := range []int{4096, 65536, 131072, 200000} {
+		for ui, u := range units {
+			for shift := 0; shift < 6; shift++ {
+				var sb strings.Builder
+				sb.WriteString(strings.Repeat("x", shift))
+				for sb.Len() < size+20 {
+					sb.WriteString(u)
+				}
+				in := sb.String()
+				ctx := map[string]interface{}{"v": in, "dflt": "ZZ"}
+				c := Case{"stream": "long-values", "size": len(in), "unit": hx(u), "shift": shift}
+				res.Hist["stream:long-values"]++
+				res.count(fmt.Sprint("long-values", size, ui, shift), true)
+				for _, p := range []string{"p_e", "p_escape", "apply", "macro", "include"} {
+					for _, plain := range []bool{false, true} {
+						res.Evaluations++
+						var got string
+						var err error
+						if plain {
+							var w c07PlainWriter
+							err = eng.RenderTo(&w, p, ctx)
+							got = w.buf.String()
+						} else {
+							got, err = eng.Render(p, ctx)
+						}
+						where := fmt.Sprintf("long-values/%s plain-writer=%v", p, plain)
+						switch {
+						case err != nil:
+							res.add(Finding{Kind: "oracle", Where: where, Case: c, Detail: "error: " + err.Error()})
+						case strings.ContainsAny(got, "<>\"'"):
+							res.add(Finding{Kind: "oracle", Where: where, Case: c, Detail: "raw special character in the escaped text of a long value"})
+						case refDecode(got) != in:
+							d := refDecode(got)
+							at := 0
+							for at < len(d) && at < len(in) && d[at] == in[at] {
+								at++
+							}
+							res.add(Finding{Kind: "oracle", Where: where, Case: c, Expected: fmt.Sprintf("%d bytes", len(in)), Observed: fmt.Sprintf("%d bytes after decoding, first difference at offset %d", len(d), at),
+								Detail: "decoding the escaped text of a long value does not give the value back"})
+						}
+					}
+				}
+			}
+		}
+	}
+}
+
+type c07PlainWriter struct{ buf bytes.Buffer }
+
+func (w *c07PlainWriter) Write(p []byte) (int, error) { return w.buf.Write(p) }
